@@ -101,8 +101,11 @@ func partStepThrough(c *check.Ctx, a *acc, victims []string) {
 			}
 			bad := len(res.Findings) > 0 || res.Inconclusive != ""
 			mu.Unlock()
-			if len(res.Findings) > 0 {
-				failed.Add(1)
+			for _, f := range res.Findings {
+				if f.Concerns(c.Prop) {
+					failed.Add(1)
+					break
+				}
 			}
 			if bad {
 				p.Kill()
@@ -229,8 +232,11 @@ func partStepPairs(c *check.Ctx, a *acc, families [][2]string) {
 			}
 			bad := len(res.Findings) > 0 || res.Inconclusive != ""
 			mu.Unlock()
-			if len(res.Findings) > 0 {
-				failed.Add(1)
+			for _, f := range res.Findings {
+				if f.Concerns(c.Prop) {
+					failed.Add(1)
+					break
+				}
 			}
 			if bad {
 				p.Kill()
